@@ -114,12 +114,15 @@ int main(int argc, char **argv)
   mc_args(argc, argv);
   if (mc_opt.param[0]) Nmax = (int)mc_opt.param[0];
   cg_opt_decor = 0; cg_opt_tiny = (int)mc_opt.param[1]; cg_opt_ccomment = 0;
-  snprintf(d0, sizeof d0, "%s/usr", mc_work); snprintf(d1, sizeof d1, "%s/etc", mc_work);
+  /* the tree lives below a directory whose path is longer than NAME_MAX: the error location must keep the whole path */
+  char deep[300]; { char c1[130], c2[130]; memset(c1, 'u', 120); c1[120] = 0; memset(c2, 'v', 120); c2[120] = 0; snprintf(deep, sizeof deep, "%s/%s", mc_work, c1); mkdir(deep, 0755);
+    size_t o = strlen(deep); snprintf(deep + o, sizeof deep - o, "/%s", c2); mkdir(deep, 0755); }
+  snprintf(d0, sizeof d0, "%s/usr", deep); snprintf(d1, sizeof d1, "%s/etc", deep);
   char t[400];
   mkdir(d0, 0755); mkdir(d1, 0755);
   snprintf(t, sizeof t, "%s/cfg.conf.d", d0); mkdir(t, 0755);
   snprintf(t, sizeof t, "%s/cfg.conf.d", d1); mkdir(t, 0755);
-  snprintf(p_single, sizeof p_single, "%s/single.conf", mc_work);
+  snprintf(p_single, sizeof p_single, "%s/single.conf", deep);
   snprintf(p_main0, sizeof p_main0, "%s/cfg.conf", d0); snprintf(p_main1, sizeof p_main1, "%s/cfg.conf", d1);
   snprintf(p_drop[0], sizeof p_drop[0], "%s/cfg.conf.d/10.conf", d0);
   snprintf(p_drop[1], sizeof p_drop[1], "%s/cfg.conf.d/20.conf", d1);
